@@ -173,12 +173,12 @@ def parse_vspec(path):
                 # key may contain spaces ("Deref for DigitString::deref"): options are trailing k=v / flags
                 toks = rest.split()
                 opts = []
-                while toks and (("=" in toks[-1] and toks[-1].split("=")[0] in ("ret", "props")) or toks[-1] in ("external",)):
+                while toks and (("=" in toks[-1] and toks[-1].split("=")[0] in ("ret", "props")) or toks[-1] in ("external", "optional")):
                     opts.append(toks.pop())
                 key = " ".join(toks)
                 kv, flags = _kv(opts)
                 cur_contract = {"ret": kv.get("ret"), "spec": "", "entry": "", "exit": "", "pin_body": "", "loops": {}, "attrs": "",
-                                "external": "external" in flags}
+                                "external": "external" in flags, "optional": "optional" in flags}
                 cur_src["contracts"][key] = cur_contract
                 unit["fn_props"][key] = [p for p in kv.get("props", "").split(",") if p]
                 mode = ("fn", cur_contract)
